@@ -11,58 +11,58 @@ RT_NOTE = ("Trusted: Lean 4.33 kernel; axioms limited to propext/Classical.choic
            "raw-pointer iterators, repr(transparent) transmutes, std RefCell, unwinding, rustc macro expansion.")
 MAC_NOTE = ("Trusted: Lean kernel + standard axioms; the model of the macro logic is tied on every run by running the real "
             "macros/src/{data,parse,generate} (included by path in harness/mac) on generated declarations, assignments and queries; "
-            "rustc's evaluation of the cfg macro_rules chain is simulated (one boolean per predicate in chain order).")
+            "in harness/mac rustc's evaluation of the cfg macro_rules chain is simulated (one boolean per predicate in chain order); the real expansion by rustc (macro_rules chain, #[cfg] on items and closure parameters, emitted constants) is exercised end-to-end by tools/e2e.py: generated declarations + queries compiled against /repo and run, each with its erased twin, plus programs that must be rejected.")
 
 CLAIMS = {
-    "C05": dict(text="Theorems over the model of bind_query_params/bind_one_of/generators: bound set = archetypes satisfying the parameter list (sound+complete, declaration order), OneOf bound to the unique present component, error iff ambiguity, empty match is an error, find on an unmatched archetype returns None without calling the closure — for all declarations and parameter lists. Tie: harness/mac (real macro crate as a library) + harness/rt query menu (real macros, end-to-end).",
+    "C05": dict(text="Theorems over the model of bind_query_params/bind_one_of/generators: bound set = archetypes satisfying the parameter list (sound+complete, declaration order), OneOf bound to the unique present component, error iff ambiguity, empty match is an error, find on an unmatched archetype returns None without calling the closure — for all declarations and parameter lists. Tie: harness/mac (real macro crate as a library) + compiled end-to-end programs (tools/e2e.py: archetypes actually visited by each query, must-not-compile programs for empty matches) + harness/rt query menu.",
                 note=MAC_NOTE, technique="Lean 4 proof (list induction) + differential correspondence with the real macro crate", ref="§6 C05"),
-    "C15": dict(text="Theorems: ids of enabled items are the enum discriminants (explicit, else previous+1, else 0), Nodup per scope, <= 255, success iff no duplicate and no implicit successor of 255, error attribution, disabled items consume no id — for all declarations. Tie: harness/mac on generated declarations (explicit ids ascending/descending/colliding/at 254-255, disabled items in between).",
+    "C15": dict(text="Theorems: ids of enabled items are the enum discriminants (explicit, else previous+1, else 0), Nodup per scope, <= 255, success iff no duplicate and no implicit successor of 255, error attribution, disabled items consume no id — for all declarations. Tie: harness/mac on generated declarations (explicit ids ascending/descending/colliding/at 254-255, disabled items in between) + compiled end-to-end programs printing the emitted ARCHETYPE_ID / COMPONENT_ID constants, ecs_component_id!, handles' archetype_id() and SelectArchetype ids; duplicate / past-255 declarations must fail to compile.",
                 note=MAC_NOTE, technique="Lean 4 proof (fold induction) + differential correspondence with the real macro crate", ref="§6 C15"),
-    "C16": dict(text="Theorems: predicate lookup after the second parse returns the compiler's value; world erasure and query erasure (decorated under any assignment = declaration with disabled items deleted and attributes stripped), for all declarations, queries and assignments. Tie: harness/mac, every assignment of the used predicates, each case with its erased twin through the real code.",
-                note=MAC_NOTE + " Not modelled: rustc's expansion of the macro_rules chain and #[cfg] on closure parameters (end-to-end in harness/rustc).", technique="Lean 4 proof (list induction) + differential correspondence incl. erased twins", ref="§6 C16"),
+    "C16": dict(text="Theorems: predicate lookup after the second parse returns the compiler's value; world erasure and query erasure (decorated under any assignment = declaration with disabled items deleted and attributes stripped), for all declarations, queries and assignments. Tie: harness/mac, every assignment of the used predicates, each case with its erased twin through the real code; compiled end-to-end programs (real rustc cfg evaluation, several distinct predicates with mixed truth values) compared with their erased twins in verdict and output.",
+                note=MAC_NOTE + " Known finding F5 (all archetypes disabled vs the parse-time emptiness check).", technique="Lean 4 proof (list induction) + differential correspondence incl. erased twins", ref="§6 C16"),
 }
 
 CLAIMS.update({
-    "C02": dict(text="Theorems: refinement of the N-column storage to an abstract map entity -> row along every labelled history (create inserts, destroy erases and returns the entity's own row, a write updates exactly the designated entity, clone maps), frame rule per operation, every read path reads valueOf; for any number of columns. Tie: harness/rt writes through 8 mutable paths and reads through all paths over archetypes of 1,2,3,5,16(32) columns with zero-sized / align 1,8,16 / heap-owning components; oracle on implementation traces.",
+    "C02": dict(text="Theorems: refinement of the N-column storage to an abstract map entity -> row along every labelled history (create inserts, destroy erases and returns the entity's own row, a write updates exactly the designated entity, clone maps), frame rule per operation, every read path reads valueOf; for any number of columns. World-history forms in Props/Histories.lean (C02_all_histories, C02_fetch_all_histories). Tie: harness/rt writes through 8 mutable paths and reads through all paths over archetypes of 1,2,3,5,16(32) columns with zero-sized / align 1,8,16 / heap-owning components; oracles on implementation traces (latest value per component token through every path, own row, paths agree).",
                 note=RT_NOTE, technique="Lean 4 proof (refinement to an abstract map) + differential correspondence with the real API", ref="§6 C02"),
-    "C04": dict(text="Theorems over token-valued storages: conservation (owned ++ handed-back ~ initial ++ moved-in as permutations), world drop returns exactly the owned cells, Nodup preserved (no double drop, nothing handed back while owned), clone clones each live cell once, failed create_within_capacity changes nothing. Tie: instrumented Clone/Drop registry in harness/rt (per-op drops inside gecs, end-of-sequence balance, double-drop detection), incl. zero-sized and heap-owning components.",
-                note=RT_NOTE + " Bit-copy semantics of swap_remove/realloc not running destructors: Miri (thorough tier) as supporting evidence.", technique="Lean 4 proof (permutation invariant over labelled histories) + Clone/Drop registry correspondence", ref="§6 C04"),
-    "C11": dict(text="Theorems over RefCell counter cells and guard trees with unwinding, for all access trees: no state with writer and readers, panics iff a static conflict exists (with the exact BorrowError/BorrowMutError kind), all cells unborrowed afterwards on both outcomes, clone panics iff a listed column has a writer, different column/archetype and shared-shared always granted. Tie: `nest` operation of harness/rt walks run-time trees over the real borrow_slice(_mut), Borrow::component(_mut), ecs_find_borrow!, ecs_iter_borrow!, clone (all pairs + random nestings) under catch_unwind with a post-sweep.",
+    "C04": dict(text="Theorems over token-valued storages: conservation (owned ++ handed-back ~ initial ++ moved-in as permutations), world drop returns exactly the owned cells, Nodup preserved (no double drop, nothing handed back while owned), clone clones each live cell once, failed create_within_capacity changes nothing; world-history form C04_all_histories (creation/removal/clear histories). Tie: instrumented Clone/Drop registry in harness/rt (per-op drops inside gecs, end-of-sequence balance, double-drop detection), incl. zero-sized and heap-owning components; a fixed ownership scenario over archetype shapes mixing components without drop glue, tracked ones and a zero-sized Drop type (rt shapes).",
+                note=RT_NOTE + " Bit-copy semantics of swap_remove/realloc not running destructors: Miri on generated histories (thorough tier) as supporting evidence.", technique="Lean 4 proof (permutation invariant over labelled histories) + Clone/Drop registry correspondence", ref="§6 C04"),
+    "C11": dict(text="Theorems over RefCell counter cells and guard trees with unwinding, for all access trees: no state with writer and readers, panics iff a static conflict exists (with the exact BorrowError/BorrowMutError kind), all cells unborrowed afterwards on both outcomes, clone panics iff a listed column has a writer, different column/archetype and shared-shared always granted. Tie: `nest` operation of harness/rt walks run-time trees over the real borrow_slice(_mut), Borrow::component(_mut), ecs_find_borrow!, ecs_iter_borrow!, clone (all pairs + random nestings) under catch_unwind with a post-sweep; implementation-only oracle over an event log of attempted/granted accesses (granted => no conflict held, refused => a conflict may be held).",
                 note=RT_NOTE + " Trusted: std::cell::RefCell is the reader/writer counter.", technique="Lean 4 proof (mutual induction over guard trees with a ghost held-list abstraction) + differential correspondence", ref="§6 C11"),
-    "C13": dict(text="Theorems: the clone has identical len/capacity/version/handles/free list/events and every lookup (any words, Entity or direct) answers identically, values equal under any Clone-preserved observation, clone satisfies the invariant and can be refilled to capacity, owned values disjoint when Clone produces fresh ones. Independence is NOT exhibited by the functional model: it rests on the tie (clone-and-diverge phases with probes on both worlds, drops in both orders with the registry).",
+    "C13": dict(text="Theorems: the clone has identical len/capacity/version/handles/free list/events and every lookup (any words, Entity or direct) answers identically, values equal under any Clone-preserved observation, clone satisfies the invariant and can be refilled to capacity, owned values disjoint when Clone produces fresh ones. C13_all_histories: for the world reached by ANY history. Independence is NOT exhibited by the functional model: it rests on the tie (the same probes on a world and its fresh clone, clone-and-diverge phases, drops in both orders with the registry, no handle reissued by a clone).",
                 note=RT_NOTE, technique="Lean 4 proof (field equality + invariant) for identity; correspondence only for independence", ref="§6 C13"),
-    "C14": dict(text="Theorems over Nat words for all 2^32 x 2^32 values and all 256 ids: pack/unpack (shift/or = arithmetic forms), raw round trip and from_raw rejecting exactly generation 0, try_from/from_any iff id match, Select* picks the unique archetype or InvalidEntityType, hash input injective and congruent, distinct (id, index, generation) give unequal handles, slot-index encoding. Tie: `conv`/`forge`/create lines of harness/rt over boundary words x ids.",
+    "C14": dict(text="Theorems over Nat words for all 2^32 x 2^32 values and all 256 ids: pack/unpack (shift/or = arithmetic forms), raw round trip and from_raw rejecting exactly generation 0, try_from/from_any iff id match, Select* picks the unique archetype or InvalidEntityType, hash input injective and congruent, distinct (id, index, generation) give unequal handles, slot-index encoding. Tie: `conv` (every conversion incl. Select*), `cmp` (==, != and hash of handle pairs sharing a key word), `forge`, create lines of harness/rt over boundary words x ids.",
                 note=RT_NOTE, technique="Lean 4 proof (arithmetic, omega + Nat bit lemmas, no bv_decide) + differential correspondence", ref="§6 C14"),
-    "C17": dict(text="Theorems: along every labelled history the created/destroyed logs are the fold of the labels; after a clear exactly the handles created/destroyed since, in order; clear changes nothing else; feature off logs nothing; the generated world-level iterator (state machine) yields the concatenation of the per-archetype logs with an exact size_hint at every position. Tie: events/clear lines of harness/rt built with the events feature, incl. world-level iterators and size_hint after each next().",
+    "C17": dict(text="Theorems: along every labelled history the created/destroyed logs are the fold of the labels; after a clear exactly the handles created/destroyed since, in order; clear changes nothing else; feature off logs nothing; the generated world-level iterator (state machine) yields the concatenation of the per-archetype logs with an exact size_hint at every position; world-history forms C17_all_histories / C17_since_last_clear. Tie: events/clear lines of harness/rt built with the events feature, incl. world-level iterators and size_hint after each next().",
                 note=RT_NOTE, technique="Lean 4 proof (fold over labelled histories; iterator state-machine invariant) + differential correspondence", ref="§6 C17"),
 })
 
 CLAIMS.update({
-    "C06": dict(text="Theorems for all closures (observed by a wrapper proved not to change the run) and every Inv state: calls are made for dense indices 0,1,.. in order with exactly what the slices hold there (own handle, own cells, direct handle (idx, version)); run to the end every live entity exactly once (handles Nodup, count = len); only &mut-written cells change; Break ends the whole query across archetypes; without Break the count is the sum of len. Tie: iter/iterb/rows lines of harness/rt (per-call argument logs of the real macros; all slice/iterator paths compared).",
+    "C06": dict(text="Theorems for all closures (observed by a wrapper proved not to change the run) and every Inv state: calls are made for dense indices 0,1,.. in order with exactly what the slices hold there (own handle, own cells, direct handle (idx, version)); run to the end every live entity exactly once (handles Nodup, count = len); only &mut-written cells change; Break ends the whole query across archetypes; without Break the count is the sum of len. Tie: iter/iterb/rows lines of harness/rt (per-call argument logs of the real macros; all slice/iterator paths compared); oracle: every live entity of every archetype satisfying the query exactly once with its own data, stop at Break.",
                 note=RT_NOTE, technique="Lean 4 proof (loop invariant, closure instrumentation by simulation) + differential correspondence", ref="§6 C06"),
-    "C07": dict(text="Theorem destroyLoop_spec for all closures: never UB, Inv afterwards, visited = reverse dense order of the population at loop start (at most once; exactly once when run to the end), (survivors ++ removed) ~ initial with removed = exactly the flagged entities, survivors keep handle and unwritten cells, unvisited prefix untouched, immediate global stop at Break/BreakDestroy, every direct handle handed to the closure is accepted in the storage the closure runs in and designates the visited entity (relies on the repaired per-step version read; the stale-version variant is refuted by a witness). Overflow panics are covered as one more way to stop. Tie: iterd lines of harness/rt with decision lists, direct handles probed after the loop.",
+    "C07": dict(text="Theorem destroyLoop_spec for all closures: never UB, Inv afterwards, visited = reverse dense order of the population at loop start (at most once; exactly once when run to the end), (survivors ++ removed) ~ initial with removed = exactly the flagged entities, survivors keep handle and unwritten cells, unvisited prefix untouched, immediate global stop at Break/BreakDestroy, every direct handle handed to the closure is accepted in the storage the closure runs in and designates the visited entity (relies on the repaired per-step version read; the stale-version variant is refuted by a witness). Overflow panics are covered as one more way to stop. Tie: iterd lines of harness/rt with decision lists, direct handles probed after the loop; EVERY decision string over the four EcsStepDestroy values up to length 4 (quick) / 6 (thorough) on one and on two matched archetypes.",
                 note=RT_NOTE, technique="Lean 4 proof (reverse-loop invariant: prefix intact, visited = reversed suffix, permutation) + differential correspondence", ref="§6 C07"),
-    "C18": dict(text="(a) unsafe-freedom: decided universally over the template-token table generated from the generator sources on every run (decide +kernel), tied end-to-end by compiling harness/rt (worlds + ~50 query invocations) and 558 generated programs under #![forbid(unsafe_code)] and by scanning every emitted stream in harness/mac. (c) auto traits: structural rule evaluated over the generated field table: world never Sync, Send iff components Send, handles Send+Sync regardless. (b) borrow envelope: PARTIAL by nature — decided on a signature-level model with one borrow rule over the generated API signature table for the full product holders x structural operations, validated program by program against rustc (unsound program must fail with a borrow/auto-trait error, sound twin must compile). A proof about rustc's borrow checker for all client programs is not possible with what is installed.",
+    "C18": dict(text="(a) unsafe-freedom: decided universally over the template-token table generated from the generator sources on every run (decide +kernel), tied end-to-end by compiling harness/rt (worlds + 110 query call sites), ~650 generated probe programs and the end-to-end programs under #![forbid(unsafe_code)] and by scanning every emitted stream in harness/mac. (c) auto traits: structural rule evaluated over the generated field table: world never Sync, Send iff components Send, handles Send+Sync regardless (probes with components whose Send and Sync differ: Cell, MutexGuard). (b) borrow envelope: PARTIAL by nature — decided on a signature-level model with one borrow rule over the generated API signature table for the full product holders x structural operations, plus the reference-to-reference conversion impls of src/** (generated table: result lifetime tied to the argument; stretch-to-static probes), validated program by program against rustc (unsound program must fail with a borrow/auto-trait error, sound twin must compile). A proof about rustc's borrow checker for all client programs is not possible with what is installed.",
                 note="Trusted: Lean kernel + standard axioms (decide +kernel over generated tables); tools/extract.py; rustc as the implementation of the envelope. Not formalised: Rust's type system / borrow checker.", technique="Lean 4 proof over translator-generated tables (tokens, fields, signatures) + rustc accept/reject corpus with twins", ref="§6 C18"),
 })
 
 CLAIMS.update({
-    "C01": dict(text="Theorems over world histories (run: any finite list of operations with arbitrary forged handles and arbitrary closures, continuing after panics): in every reachable world, for any Entity words, contains/fetch/toDirect accept iff the words are in the archetype's dense array (alive) and then designate that very entity; all four uses (typed/dynamic x archetype/world level) of a live handle route to its archetype and agree, in debug and release; a handle that left the dense array is rejected forever whatever happens later (non-wrapping); destroy removes exactly the designated entity. Tie: probe after structural ops over all issued handles (live and stale, positions reused many times) through every path; invariant evaluated on implementation dumps; trace oracle.",
+    "C01": dict(text="Theorems over world histories (run: any finite list of operations with arbitrary forged handles and arbitrary closures, continuing after panics): in every reachable world, for any Entity words, contains/fetch/toDirect accept iff the words are in the archetype's dense array (alive) and then designate that very entity; all four uses (typed/dynamic x archetype/world level) of a live handle route to its archetype and agree, in debug and release; a handle that left the dense array is rejected forever whatever happens later (non-wrapping); destroy removes exactly the designated entity. Tie: probe after structural ops over all issued handles (live and stale, positions reused many times) through every path; the invariant (decidable checker proved equivalent to Inv: invCheck_iff) evaluated on implementation dumps; trace oracles.",
                 note=RT_NOTE + " Wrapping configuration: false by design after a wrap (witness proved); see C08/C19.", technique="Lean 4 proof (representation invariant + history induction with a ghost 'seen' set) + differential correspondence", ref="§6 C01"),
     "C03": dict(text="Theorems: run never reaches undefined behaviour for ANY handle words in any operation (every unchecked access of the modelled code has its precondition implied by the invariant plus the checks the code performs); lookups with arbitrary dynamic words never UB and never change the world; an accepted dynamic key (or typed key in debug, or typed key with matching id) is bit-identical to the handle of the live entity it reaches; direct keys accepted iff (index, version) is what to_direct would issue now; unknown id: clean panic at world level, None at archetype level. PARTIAL for typed keys made by from_any_unchecked with a foreign id in release builds (known finding F3: matches on (index, generation) only; witness proved).",
-                note=RT_NOTE + " Pointer arithmetic and allocation are modelled, not verified (Miri in the thorough tier as supporting evidence).", technique="Lean 4 proof (Out.ub unreachable under the invariant; case analysis of the checks) + state-derived forgery sweep in debug and release", ref="§6 C03"),
-    "C08": dict(text="Theorems (non-wrapping): a handle newly appearing in an archetype was never in it before at any earlier point of the history (three-point and create-step forms), so no create ever returns a handle issued earlier; handles of different archetypes differ in the id byte; at generation vmax the removal panics and leaves the state unchanged (nothing is reissued); with wrapping_version the documented exception is exhibited by a proved witness. vmax/maxCap come from the translator-generated constants. Tie: all issued handles checked for uniqueness per world by the oracle; preset counters near 2^32 (hook H2) then churn across the boundary in default and wrapping builds.",
+                note=RT_NOTE + " Pointer arithmetic and allocation are modelled, not verified (Miri on forged-handle histories in the thorough tier as supporting evidence; a harness process killed by a signal is reported as a concrete violation).", technique="Lean 4 proof (Out.ub unreachable under the invariant; case analysis of the checks) + state-derived forgery sweep in debug and release", ref="§6 C03"),
+    "C08": dict(text="Theorems (non-wrapping): a handle newly appearing in an archetype was never in it before at any earlier point of the history (three-point and create-step forms), so no create ever returns a handle issued earlier; handles of different archetypes differ in the id byte; at generation vmax the removal panics and leaves the state unchanged (nothing is reissued); with wrapping_version the documented exception is exhibited by a proved witness. vmax/maxCap come from the translator-generated constants. Tie: all issued handles checked for uniqueness per world by the oracle; preset counters near 2^32 (hook H2) then churn across the boundary in default and wrapping builds; thorough: 2^32-1 REAL create/destroy cycles on one position without the hook.",
                 note=RT_NOTE, technique="Lean 4 proof (ghost invariant: stale generation < slot generation) + differential correspondence incl. overflow boundary", ref="§6 C08"),
     "C09": dict(text="Theorems over world histories (non-wrapping): a direct handle (d, version) issued for e is accepted at issue; whenever accepted later it designates e; after any loss of an entity of its archetype the version is strictly larger and every lookup answers None; while the version is unchanged (in particular under creations, growth, writes, clears, and operations on other archetypes) it stays accepted; to_direct with a direct key validates it (defect F4 repaired) and what to_direct mints is accepted. Closure-minted direct handles: C07 theorem minted_direct_designates. Tie: direct handles harvested from to_direct and from closures of all five macros, re-probed after later operations through all paths.",
                 note=RT_NOTE, technique="Lean 4 proof (version strictly monotone per removal; prefix stability between removals) + differential correspondence", ref="§6 C09"),
 })
 
 CLAIMS.update({
-    "C10": dict(text="Theorems: for every operation (arbitrary closures and handles) on an invariant world, whatever the outcome — return or panic — the carried world satisfies the invariant (each entity whole or absent: dense/sparse bijection, all columns of length len), same schema, storages related by atomic steps; never UB; run continues after every panic and the invariant holds after arbitrary further use; the overflow panics of destroy, the capacity overflow of create and with_capacity beyond the limit leave the state UNCHANGED; closure panics in iter/iter_destroy/find keep the invariant; regression witness: with the ORIGINAL statement order of force_destroy (defect F1, repaired) an overflow panic violates the invariant. Tie: fault sweep in harness/rt — k-th closure call of each macro, k-th Clone::clone, k-th Drop::drop (world drop and destroyed tuple), counters preset to the 2^32 boundary then destroy by every key kind and iter_destroy, borrow conflicts — each followed by dump+invariant, rows, probes, continued use and an end-of-sequence registry balance (leaks predicted exactly).",
+    "C10": dict(text="Theorems: for every operation (arbitrary closures and handles) on an invariant world, whatever the outcome — return or panic — the carried world satisfies the invariant (each entity whole or absent: dense/sparse bijection, all columns of length len), same schema, storages related by atomic steps; never UB; run continues after every panic and the invariant holds after arbitrary further use; the overflow panics of destroy, the capacity overflow of create and with_capacity beyond the limit leave the state UNCHANGED; closure panics in iter/iter_destroy/find keep the invariant; regression witness: with the ORIGINAL statement order of force_destroy (defect F1, repaired) an overflow panic violates the invariant. Tie: fault sweep in harness/rt — k-th closure call of each macro, k-th Clone::clone, k-th Drop::drop (world drop and destroyed tuple), counters preset to the 2^32 boundary then destroy by every key kind and iter_destroy, borrow conflicts — each followed by dump+invariant, rows, probes, continued use and an end-of-sequence registry balance (leaks predicted exactly); thorough: the generation overflow reached by 2^32-1 real cycles; Miri on fault/overflow histories.",
                 note=RT_NOTE + " Cannot be exhibited by the model: unwinding through real stack frames, allocation failure, the Layout overflow panic inside DataPtr::grow.", technique="Lean 4 proof (per-operation, per-panic-point invariant preservation) + fault enumeration against the real code", ref="§6 C10"),
     "C12": dict(text="Theorems for symbolic maxCap (value 2^24 from the translator): len = number of live entities (Nodup dense handles), is_empty agrees, len <= capacity <= maxCap, capacity monotone along every history, with_capacity(n) succeeds iff n <= maxCap and then n create_within_capacity succeed without growing, create_within_capacity succeeds iff len < capacity (capacity unchanged, else state unchanged), create succeeds whenever len < maxCap under any admissible growth (the code's own formula is admissible), at the limit it panics with the state unchanged, after ANY history exactly capacity - len further create_within_capacity succeed (every freed position reusable) and the next is refused. Tie: len/capacity/version in every observation, refill-to-capacity probes, invariant evaluated on dumps of the implementation's slot array.",
-                note=RT_NOTE + " The real 2^24 boundary is exercised on the implementation alone in the thorough tier (the list model is not run at 2^24 elements).", technique="Lean 4 proof (free-chain length invariant) + differential correspondence + invariant on implementation dumps", ref="§6 C12"),
-    "C19": dict(text="Theorems: events only adds logs (erasing the logs commutes with every storage operation, stepOp and run, for arbitrary closures/handles); wrapping_version changes nothing until a generation at vmax is released (run-level equality on overflow-free histories) and beyond that keeps the invariant and never reaches UB (documented reuse exhibited by a witness); debug assertions change nothing for in-range keys and issued keys never trip them, the only difference for forged out-of-range keys is a clean panic vs None; the invariant and all theorems are arity-generic. The feature list and storage arities come from the translator. Tie: the rt streams re-run under 6 (quick) / 16 (thorough) configurations against the model with the matching Cfg, plus implementation-vs-implementation replay of the same operation lists across configurations differing in exactly one feature or the profile.",
+                note=RT_NOTE + " The real 2^24 boundary is exercised on the implementation alone (rt boundary, both tiers; the list model is not run at 2^24 elements).", technique="Lean 4 proof (free-chain length invariant) + differential correspondence + invariant on implementation dumps", ref="§6 C12"),
+    "C19": dict(text="Theorems: events only adds logs (erasing the logs commutes with every storage operation, stepOp and run, for arbitrary closures/handles); wrapping_version changes nothing until a generation at vmax is released (run-level equality on overflow-free histories) and beyond that keeps the invariant and never reaches UB (documented reuse exhibited by a witness); debug assertions change nothing for in-range keys and issued keys never trip them, the only difference for forged out-of-range keys is a clean panic vs None; the invariant and all theorems are arity-generic. The feature list and storage arities come from the translator. Tie: the rt streams re-run under 6 (quick) / 16 (thorough) configurations against the model with the matching Cfg, plus implementation-vs-implementation replay of the same operation lists across configurations differing in exactly one feature or the profile; thorough: the 2^32 boundary by real cycles in rel-none, rel-w and dbg-w.",
                 note=RT_NOTE, technique="Lean 4 proof (parametricity in Cfg, simulation lifted to run) + cross-configuration differential replay", ref="§6 C19"),
 })
 
@@ -106,7 +106,7 @@ def main():
         ],
         "checks": checks,
         "not_applicable": na,
-        "notes": "Single entry point ./check <Cxx> [--tier quick|thorough] [--replay f]. fix: commits in /repo: b8012bf (F1), 605cf9e (F2), e73fcbd (F4); known findings in /verif/known-findings.txt.",
+        "notes": "Single entry point ./check <Cxx> [--tier quick|thorough] | --replay <file> | --setup. fix: commits in /repo: b8012bf (F1), 605cf9e (F2), e73fcbd (F4); known findings F3 (C03) and F5 (C16) in /verif/known-findings.txt. Seeded changes used to test the checks: /verif/seeded/ (DESIGN.md section 9).",
     }
     json.dump(m, open(os.path.join(VERIF, "MANIFEST.json"), "w"), indent=1)
     print("wrote MANIFEST.json with", len(checks), "checks")
